@@ -83,11 +83,22 @@ def bank_entry(country: str, bban: str):
     return es[0] if es else None
 
 
+AMBIGUOUS = "ambiguous"
+
+
 def german_method(bban: str):
-    e = bank_entry("DE", bban)
-    if e is None:
+    """The Bundesbank method the registry lists for the bank code of ``bban``: None if the bank is
+    unlisted or no entry of the key carries a method; AMBIGUOUS if the entries disagree."""
+    c = reg.countries().get("DE")
+    es = by_key().get(("DE", c.lookup_key(bban))) if c else None
+    if not es:
         return None
-    return e.get("checksum_algo")
+    methods = {e.get("checksum_algo") for e in es} - {None, ""}
+    if not methods:
+        return None
+    if len(methods) > 1:
+        return AMBIGUOUS
+    return next(iter(methods))
 
 
 def national_verdict(country: str, bban: str):
@@ -96,7 +107,7 @@ def national_verdict(country: str, bban: str):
     if country == "DE":
         m = german_method(bban)
         if m is None or m not in bbk.METHODS:
-            return True if m is None else None
+            return True if m is None else None  # AMBIGUOUS and unknown methods: abstain
         c = reg.countries()["DE"]
         return bbk.verdict(m, c.component(bban, "account_code"))
     return nat.accept(country, bban)
